@@ -5,7 +5,7 @@
 #include "vh.h"
 #include "igzip_lib.h"
 
-enum { API_DEFLATE, API_DEFLATE_STATELESS, API_INFLATE, API_INFLATE_STATELESS };
+enum { API_DEFLATE, API_DEFLATE_STATELESS, API_INFLATE, API_INFLATE_STATELESS, API_DEFLATE_STATELESS_MULTI /* several one-shot calls on ONE context (FULL_FLUSH ... final) */ };
 enum { MEM_CONTIG, MEM_FRESH, MEM_RECYCLE };
 #define MAXCALLS 200000
 
@@ -412,10 +412,12 @@ run_deflate(struct scn *s)
                         fprintf(out, "{\"e\":\"SetDict\",\"scn\":%d,\"seq\":%d,\"wrong_state\":0,\"ret\":%d,\"ret2\":%d,\"st\":\"%s\",\"ti\":%u,\"to\":%u}\n", s->id, i, r1,
                                 r2, zstate_name(z->internal_state.state), z->total_in, z->total_out);
                 }
-                if (s->api == API_DEFLATE_STATELESS) {
+                if (s->api == API_DEFLATE_STATELESS || (s->api == API_DEFLATE_STATELESS_MULTI && i + 1 >= s->ncalls)) {
                         why = "oneshot";
                         break;
                 }
+                if (s->api == API_DEFLATE_STATELESS_MULTI)
+                        continue;
                 if (ai0 == z->avail_in && (uint32_t) c.ao == z->avail_out && c.ao > 0 && st0 == (int) z->internal_state.state &&
                     (ai0 > 0 || eos_set || c.flush) && i >= s->ncalls)
                         dstall++;
@@ -696,7 +698,7 @@ main(int argc, char **argv)
                         s.calls[j].flush = vh_rd(in);
                         s.calls[j].eos = vh_rd(in);
                 }
-                if (s.api == API_DEFLATE || s.api == API_DEFLATE_STATELESS)
+                if (s.api == API_DEFLATE || s.api == API_DEFLATE_STATELESS || s.api == API_DEFLATE_STATELESS_MULTI)
                         run_deflate(&s);
                 else
                         run_inflate(&s);
